@@ -199,6 +199,7 @@ func runC03(c *Ctx) {
 	cases = append(cases, fixedLossless()...)
 	cases = append(cases, exhaustiveCases(c, func(int, int) []int { return []int{0} })...)
 	cases = append(cases, bigCases(c, rng, func(int) int { return 0 })...)
+	guardCorr(c, false)
 	ParallelFor(len(cases), c.Work, func(i int) {
 		im := cases[i].im
 		c.R.Case("ll:"+im.key(), im.nontrivial(), im.dist("ll")...)
@@ -358,6 +359,7 @@ func runC07(c *Ctx) {
 		return []int{1, 3, 7}
 	})...)
 	cases = append(cases, bigCases(c, rng, func(P int) int { return pickNear(rng, P) })...)
+	guardCorr(c, true)
 	ParallelFor(len(cases), c.Work, func(i int) {
 		im, near := cases[i].im, cases[i].near
 		c.R.Case(fmt.Sprintf("near%d:%s", near, im.key()), im.nontrivial(),
@@ -564,4 +566,116 @@ func clip(s string) string {
 		return s[:300] + fmt.Sprintf("...(%d chars)", len(s))
 	}
 	return s
+}
+
+// guardCorr: correspondence only (no oracle; the guards are C08/C17's properties): the model
+// mirrors the encoders' argument guards and the decoders' header checks — short and long pixel
+// buffers, dimensions above 65535, precision outside 2..16, a second SOF55, a foreign SOFn.
+func guardCorr(c *Ctx, near bool) {
+	if !c.HasModel() {
+		return
+	}
+	rng := c.Rng.Fork()
+	enc := func(w, h, comps, P, nr int, px []byte) {
+		var impl, got string
+		if near {
+			var out []byte
+			var err error
+			if p, _ := Safely(func() { out, err = nearlossless.Encode(px, w, h, comps, P, nr) }); p {
+				impl = "panic"
+			} else if err != nil {
+				impl = "err"
+			} else {
+				impl = "ok:" + Hex(out)
+			}
+			got = c.M.Call("jlsn_encode", itoa(w), itoa(h), itoa(comps), itoa(P), itoa(nr), Hex(px))
+		} else {
+			var out []byte
+			var err error
+			if p, _ := Safely(func() { out, err = lossless.Encode(px, w, h, comps, P) }); p {
+				impl = "panic"
+			} else if err != nil {
+				impl = "err"
+			} else {
+				impl = "ok:" + Hex(out)
+			}
+			got = c.M.Call("jls_encode", itoa(w), itoa(h), itoa(comps), itoa(P), Hex(px))
+		}
+		c.R.Case(fmt.Sprintf("guard:enc:%d:%d:%d:%d:%d:%d", w, h, comps, P, nr, len(px)), true, "guards.enc")
+		c.CorrEq("enc_guards", "jls:guards:enc", got, impl, map[string]interface{}{"w": w, "h": h, "comps": comps, "P": P, "near": nr, "len": len(px)})
+	}
+	for i := 0; i < c.N(40, 400); i++ {
+		P := rng.Range(1, 17)
+		comps := rng.Pick(1, 3, 1, 3, 2, 0, 4)
+		w, h := rng.Range(-1, 5), rng.Range(-1, 5)
+		bps := 1
+		if P > 8 {
+			bps = 2
+		}
+		need := w * h * comps * bps
+		if need < 0 {
+			need = 0
+		}
+		n := need + rng.Pick(0, 0, -1, -2, 1, 3, 7)
+		if n < 0 {
+			n = 0
+		}
+		px := make([]byte, n)
+		for j := range px {
+			px[j] = byte(rng.Intn(1 << uint(min(P, 8))))
+		}
+		enc(w, h, comps, P, rng.Pick(0, 0, 1, 255, 256, -1), px)
+	}
+	enc(65536, 1, 1, 8, 0, make([]byte, 65536))
+	enc(1, 65536, 1, 8, 0, make([]byte, 65536))
+	enc(65535, 1, 1, 8, 0, make([]byte, 65535))
+	// decoder header checks on mutated valid streams
+	dec := func(tag string, s []byte) {
+		var impl string
+		if near {
+			impl = goDecNear(s).String()
+		} else {
+			impl = withNear0(goDecLL(s)).String()
+		}
+		op := "jls_decode"
+		if near {
+			op = "jlsn_decode"
+		}
+		c.R.Case("guard:dec:"+tag+":"+Hex(s), true, "guards.dec")
+		c.CorrEq("dec_guards", "jls:guards:dec:"+tag, c.M.Call(op, Hex(s)), impl, map[string]interface{}{"stream": Hex(s)})
+	}
+	for _, comps := range []int{1, 3} {
+		im := &image{3, 2, comps, 8, fill(rng, "noise", 3, 2, comps, 8, 0), "noise"}
+		var s []byte
+		if near {
+			_, s = goEncNear(im, 2)
+		} else {
+			_, s = goEncLL(im)
+		}
+		if s == nil {
+			continue
+		}
+		sofLen := 2 + 2 + 6 + 3*comps
+		sof := append([]byte{}, s[2:2+sofLen]...)
+		for _, pb := range []byte{0, 1, 2, 16, 17, 63, 64, 255} {
+			m := append([]byte{}, s...)
+			m[6] = pb
+			dec(fmt.Sprintf("precision%d", pb), m)
+		}
+		// second SOF55
+		m := append(append(append([]byte{}, s[:2+sofLen]...), sof...), s[2+sofLen:]...)
+		dec("second-sof", m)
+		// foreign frame headers and other segments before SOF55
+		for _, mk := range []byte{0xC0, 0xC1, 0xC3, 0xC4, 0xC5, 0xC8, 0xC9, 0xCC, 0xCF, 0xE0, 0xFE, 0xD0, 0xD8} {
+			seg := []byte{0xFF, mk, 0x00, 0x04, 0x01, 0x02}
+			m := append(append(append([]byte{}, s[:2]...), seg...), s[2:]...)
+			dec(fmt.Sprintf("marker%02x", mk), m)
+		}
+		// truncations
+		for _, cut := range []int{0, 1, 2, 5, 2 + sofLen, len(s) - 3, len(s) - 2, len(s) - 1} {
+			if cut >= 0 && cut <= len(s) {
+				dec(fmt.Sprintf("cut%d", cut), s[:cut])
+			}
+		}
+	}
 }
